@@ -1,5 +1,5 @@
 (* DrvNQ.v — protocol front end for the N-Triples / N-Quads model *)
-From RK Require Import Base Proto Utf8 NQ.
+From RK Require Import Base Proto Utf8 NQ RuneBuf.
 
 Definition runes_of (bs : bytes) : runes := map fst (utf8_decode bs).
 
@@ -105,13 +105,10 @@ Definition verdict_out (v : verdict) : bytes :=
   match v with VOk => s2b "ok" | VSyntax => s2b "syntax" | VIo => s2b "io" | VFuel => s2b "!fuel" end.
 
 (* statements with the ranges of their terms (subject, predicate, object[, graph]) *)
-Fixpoint stmts_out (p : pos) (l : list stmt) (with_ranges : bool) : list bytes :=
-  match l with
-  | [] => []
-  | s :: l' =>
-      let '(rs, p') := ranges p (st_trace s) in
-      (quad_out (st_quad s) ++ (if with_ranges then 64%N :: join [44%N] (map range_out rs) else [])) :: stmts_out p' l' with_ranges
-  end.
+Definition stmts_out (p : pos) (l : list stmt) (with_ranges : bool) : list bytes :=
+  map (fun sr : stmt * list (pos * pos) =>
+         quad_out (st_quad (fst sr)) ++ (if with_ranges then 64%N :: join [44%N] (map range_out (snd sr)) else []))
+      (combine l (stmt_ranges p l)).
 
 Definition parse_pos (l : bytes) : option pos :=
   match split_on 46 l with
@@ -132,6 +129,19 @@ Definition run_nqdec (args : list bytes) : bytes :=
           let '(sts, v) := decode_bytes nq' bs' t' in
           verdict_out v ++ [59%N] ++ join [59%N] (stmts_out p0' sts wr')
       | _, _, _, _ => ERR
+      end
+  | _ => ERR
+  end.
+
+(* runes <sizes n,n,..> <xbytes>: the (rune, size) pairs the rune buffer hands out when the reader returns the bytes in chunks *)
+Definition run_runes (args : list bytes) : bytes :=
+  match args with
+  | [sz; bs] =>
+      match opt_map_all dec_parse (split_on 44 sz), xstr bs with
+      | Some sizes, Some bs' =>
+          join [44%N] (map (fun rn : N * nat => dec_print (fst rn) ++ [46%N] ++ dec_print (N.of_nat (snd rn)))
+                           (read_all (chunk (map N.to_nat sizes) bs')))
+      | _, _ => ERR
       end
   | _ => ERR
   end.
